@@ -76,7 +76,7 @@ pub fn run_program_bounded(p: &Program, t: &mut Tape, st: &mut Stats, prefix: &s
     let actual: Vec<Vec<String>> = with_hz(|h| {
         h.trace
             .iter()
-            .filter(|e| e.cmd == "emit" && e.args.first().map(|a| a != "0").unwrap_or(true))
+            .filter(|e| (e.cmd == "emit" && e.args.first().map(|a| a != "0").unwrap_or(true)) || (e.cmd == "cap" && e.args.first().map(|a| a.starts_with("cap:")).unwrap_or(false)))
             .map(|e| e.args.iter().map(|a| names.get(a).cloned().unwrap_or_else(|| a.clone())).collect())
             .collect()
     });
@@ -128,25 +128,25 @@ fn nt_c04(_m: &Model, classes: &std::collections::HashSet<&'static str>) -> bool
 }
 
 fn case_small(t: &mut Tape, st: &mut Stats) -> Verdict {
-    let p = gen_program(t, GenCfg { functions: false, failures: false, max_depth: 5, max_stmts: 30, long_loops: false });
+    let p = gen_program(t, GenCfg { functions: false, failures: false, max_depth: 5, max_stmts: 30, long_loops: false, probe_conditions: true });
     run_program(&p, t, st, "C04", nt_c04)
 }
 
 fn case_large(t: &mut Tape, st: &mut Stats) -> Verdict {
-    let p = gen_program(t, GenCfg { functions: false, failures: false, max_depth: 8, max_stmts: 120, long_loops: false });
+    let p = gen_program(t, GenCfg { functions: false, failures: false, max_depth: 8, max_stmts: 120, long_loops: false, probe_conditions: false });
     run_program(&p, t, st, "C04", nt_c04)
 }
 
 /// small programs whose while loops run for tens to hundreds of iterations, also inside other loops
 fn case_long_loops(t: &mut Tape, st: &mut Stats) -> Verdict {
-    let p = gen_program(t, GenCfg { functions: false, failures: false, max_depth: 4, max_stmts: 10, long_loops: true });
+    let p = gen_program(t, GenCfg { functions: false, failures: false, max_depth: 4, max_stmts: 10, long_loops: true, probe_conditions: false });
     run_program_bounded(&p, t, st, "C04", |m, _| m.classes.contains("while-ran-100-times"), 12_000)
 }
 
 pub fn property() -> Property {
     Property {
         id: "C04",
-        rule: "well-nested programs (AST of emit / set / if-elseif-else / while / for-in, depth <= 5 quick / 8 thorough, empty bodies, zero-iteration loops, loops re-entered many times, and - section long-loops - while loops of 20..250 iterations, also nested in other loops) rendered with a random alias or the canonical name for every keyword occurrence (generic 'end' or block-specific end), random indentation, blank and comment lines; conditions as values, boolean expressions, commands (tick) and negated commands (not tock); emit trace (ids and argument values) and final variables compared with a tree-walking interpreter. Non-trivial: >= 2 block kinds nested and some block executed >= 2 times; distinct by script text",
+        rule: "well-nested programs (AST of emit / set / if-elseif-else / while / for-in, depth <= 5 quick / 8 thorough, empty bodies, zero-iteration loops, loops re-entered many times, and - section long-loops - while loops of 20..250 iterations, also nested in other loops) rendered with a random alias or the canonical name for every keyword occurrence (generic 'end' or block-specific end), random indentation, blank and comment lines; conditions as values, boolean expressions, commands (tick), negated commands (not tock) and - in if / elseif - the capture command, plain or negated, with 1..3 arguments that may be empty, padded with blanks or a blank only, whose received values are part of the compared trace; emit trace (ids and argument values) and final variables compared with a tree-walking interpreter. Non-trivial: >= 2 block kinds nested and some block executed >= 2 times; distinct by script text",
         assumptions: &[
             "only well-nested programs; no goto into or out of blocks; arrays are not mutated during iteration; values are plain words that are not command names",
             "while loops are driven by deterministic tick/tock automata shared (as an algorithm) with the reference interpreter",
@@ -159,7 +159,7 @@ pub fn property() -> Property {
                     Tier::Thorough => Plan::Random { cases: 6_000_000, max_len: 800 },
                 },
                 case: case_small,
-                min_classes: &[("two-block-kinds-nested", 2000), ("zero-iteration-loop", 2000), ("empty-body", 2000), ("canonical-name-keyword", 2000), ("block-specific-end", 2000), ("same-block-executed-3-times", 1000), ("elseif-chain", 2000), ("x-y-x-nesting", 300), ("mixed-generic-and-specific-end", 2000)],
+                min_classes: &[("two-block-kinds-nested", 2000), ("zero-iteration-loop", 2000), ("empty-body", 2000), ("canonical-name-keyword", 2000), ("block-specific-end", 2000), ("same-block-executed-3-times", 1000), ("elseif-chain", 2000), ("x-y-x-nesting", 300), ("mixed-generic-and-specific-end", 2000), ("condition-command-argument-padded-with-blanks", 2000)],
             },
             Section {
                 name: "large-programs",
